@@ -141,6 +141,6 @@ Proof. exact WeightedL1_is_penalized_spec. Qed.
 Print Assumptions unpenalised_flag_is_zero_weight.
 Theorem unpenalised_contribute_zero : forall alpha (weights w : list R) (j : nat) x,
   (j < length w)%nat -> length w = length weights -> nth j weights 0 = 0 ->
-  @WeightedL1_value R _ alpha weights (set_nth w j x) = @WeightedL1_value R _ alpha weights w.
+  @WeightedL1_value R _ alpha weights false (set_nth w j x) = @WeightedL1_value R _ alpha weights false w.
 Proof. exact WeightedL1_unpenalized_contributes_zero. Qed.
 Print Assumptions unpenalised_contribute_zero.
